@@ -29,12 +29,15 @@ def run(tier):
                     # failing writer: its k-th primitive call raises
                     for fa in rng.sample(range(1, 12), 3):
                         jobs.append(dict(op='ser', cls=cls, value=v, san=san, fail_at=fa))
+                    # ... and a failure that is not an Exception subclass (cancellation, KeyboardInterrupt): "whether the call returns or raises"
+                    jobs.append(dict(op='ser', cls=cls, value=v, san=san, fail_at=rng.randrange(1, 12), fail_base=True))
                 for d, m in (rng.sample(ms, 5) if len(ms) > 5 else ms):
                     jobs.append(dict(op='ser', cls=cls, value=m, san=rng.random() < 0.5, mutant=d))
             for data in ([], [0xFF, 0xFF, 1], [rng.randrange(256) for _ in range(rng.randrange(1, 14))], [0x00, 0x00, 0x00, 0xFF, 0x00]):
                 for ch in (False, True):
                     jobs.append(dict(op='deser', cls=cls, data=data, chunked=ch))
                     jobs.append(dict(op='deser', cls=cls, data=data, chunked=ch, fail_at=rng.randrange(1, 8)))
+                    jobs.append(dict(op='deser', cls=cls, data=data, chunked=ch, fail_at=rng.randrange(1, 8), fail_base=True))
         entries.append(dict(name=t['name'], tree=t['tree'], jobs=jobs))
     run_entries(C, runner, entries)
     # ---- oracle on the implementation: mode out = mode in, whether the call returned or raised
@@ -43,11 +46,11 @@ def run(tier):
         for job, out in zip(e['jobs'], e['result'].get('results', [])):
             obs = []
             if job['op'] == 'ser' and 'res' in out:
-                obs.append(('serialize', job['san'], out['mode'], out['res'], dict(value=job['value'], san=job['san'], fail_at=job.get('fail_at'))))
+                obs.append(('serialize', job['san'], out['mode'], out['res'], dict(value=job['value'], san=job['san'], fail_at=job.get('fail_at'), fail_base=job.get('fail_base'))))
                 for d in out.get('deser', []):
                     obs.append(('deserialize', d['chunked'], d['mode'], d['res'], dict(data=d['data'], chunked=d['chunked'])))
             elif job['op'] == 'deser' and 'res' in out:
-                obs.append(('deserialize', job['chunked'], out['mode'], out['res'], dict(data=job['data'], chunked=job['chunked'], fail_at=job.get('fail_at'))))
+                obs.append(('deserialize', job['chunked'], out['mode'], out['res'], dict(data=job['data'], chunked=job['chunked'], fail_at=job.get('fail_at'), fail_base=job.get('fail_base'))))
             for which, entry, final, res, inp in obs:
                 n += 1
                 nraised += res[0] == 'err'
